@@ -162,6 +162,7 @@ func (c *Channel) Deliver(out, x []byte) ([]byte, error) {
 				}
 			}
 			if isApp {
+				c.lastReceived = now
 				appData = out
 				return nil, nil
 			}
